@@ -67,6 +67,12 @@ impl DynamicConstraintsEncoder {
     }
 
     fn new_solver_var(&mut self, var_type: SolverVarType) -> usize {
+        // variables may have been introduced in the solver by others (e.g. the selectors of a search for
+        // maximal extensions); they must not be reused
+        let n_solver_vars = self.solver.borrow().n_vars();
+        while self.solver_vars.len() <= n_solver_vars {
+            self.solver_vars.push(SolverVarType::Ignored);
+        }
         self.solver_vars.push(var_type);
         self.solver_vars.len() - 1
     }
